@@ -265,6 +265,11 @@ def run_c02(ctx):
         ctx.violations += judge_state_isolation(ctx, cfg, 1500 if ctx.tier == 'quick' else 15000)
     for cfg in [c for c in getattr(ctx, 'side_cfgs', []) if c == 'fr' and c not in ctx.cfgs]:
         ctx.violations += judge_state_isolation(ctx, cfg, 1500)
+    for cfg in [c for c in getattr(ctx, 'side_cfgs', []) if c == 'ap' and c not in ctx.cfgs]:
+        # arbitrary_precision side configuration: every number literal of a document must be held verbatim (model: NLit of exactly its text)
+        lits = gen.number_literals(ctx.rng, 600)
+        docs = lits[::3] + [b'[' + x + b', ' + y + b']' for x, y in zip(lits[::11], lits[5::11])] + [b'{"k":' + x + b'}' for x in lits[::13]]
+        ctx.violations += judge_c02(ctx, cfg, docs)
     ctx.violations += judge_private_tokens(ctx, acceptance_only=False)
 
 def judge_c11(ctx, cfg, inputs, aux=None):
